@@ -168,6 +168,13 @@ async def scripted(runner, w, fz, rng):
             await second_update(jp)
         # the step being judged runs without the workload's injected worker refusals / driver faults: with a willing worker and
         # free capacity, one round must hand the job over
+        v0 = _V(w.engine)
+        p0, c0 = v0.jobs.get((bid, 2)), v0.jobs.get((bid, 4))
+        if p0 is None or c0 is None or p0['state'] not in ('Failed', 'Error') or c0['state'] != 'Ready':
+            # the prefix did not get there (an injected refusal kept the parent from running in its own round): a parent that
+            # only fails DURING the judged round readies the child after the scheduler has passed it - nothing to judge
+            ctx.count('scripted_always_run_prefix_not_reached')
+            return
         saved = {k: fz.cfg[k] for k in ('worker_reject_p', 'fault_schedule_db_p')}
         fz.cfg.update({k: 0 for k in saved})
         fz.fail_next_schedule_db = False
